@@ -177,7 +177,9 @@ Definition simple_range_vars (first : nat) (start e : nat) : list nat :=
 
 Definition complex_range_vars (f : nat) (first : nat) (start e : nat) : list nat :=
   let n := variables_for_factor f start e / nlevels f in
-  map (fun v => first + 1 + (v + start) * nlevels f) (seq 0 n).
+  (* offset: the applicable trials before [start] (/repo commit "fix: windowed
+     variable lists of complex derived factors were shifted") *)
+  map (fun v => first + 1 + (v + previous_trials_count f (start + 1)) * nlevels f) (seq 0 n).
 
 Definition build_variable_lists (f l : nat) (wb : option geometry) : option (list (list nat)) :=
   match first_variable_for_level f l, map_block_trial_ranges wb with
